@@ -4,3 +4,4 @@ pub mod esr;
 pub mod mnemonic;
 pub mod units;
 pub mod lexer;
+pub mod lists;
